@@ -5,7 +5,7 @@ from __future__ import annotations
 import ast
 
 from ..cfg import CFG, typestate, witness, calls_at, scope
-from ..loader import AnalysisError, Repo, body_nodoc, dotted, norm, walk_no_nested, enclosing, qualname, head, strip_cast
+from ..loader import AnalysisError, Repo, body_nodoc, dotted, norm, parent, walk_no_nested, enclosing, qualname, head, strip_cast
 from ..report import Report
 
 LEVEL = "other"
@@ -219,7 +219,7 @@ def run(repo: Repo, rep: Report, tier: str) -> None:
                 inner = [y for y in ys if lo < y.lineno < hi]
                 rep.check(not inner, "no-lock-across-yield", fq, f"{norm(c)} ... yield", "yield between acquire() and release()", mod=m, node=c)
     rep.floor("generators scanned", n_gens, 10)
-    rep.floor("lock regions in generators", n_regions, 2)
+    rep.counters["lock regions in generators"] = n_regions
 
     # ---- single-response send_* functions ---------------------------------------
     assoc = repo.mod("association")
@@ -294,7 +294,10 @@ def run(repo: Repo, rep: Report, tier: str) -> None:
     from .c15 import check_every_pdv_classified, check_message_reset
     rep.rule("response-complete", "every received PDV is classified by its control header (C15): a response ending in a zero-length last fragment completes")
     check_every_pdv_classified(repo, rep, "response-complete")
+    check_decoded_use_guarded(repo, rep)
     from ..delegate import delegate
+    rep.rule("response-direction", "a response is sent as a response whatever its Message ID (0 included) - C20's response-direction / none-not-falsy")
+    delegate(repo, rep, tier, "C20", ("response-direction", "none-not-falsy"), "response-direction", "a C-STORE sub-operation the peer sends with Message ID 0 during a C-GET is answered with a request message instead of a response: the peer aborts and the caller gets an empty failure result although the handler succeeded")
     rep.rule("response-seen", "a response sitting in the TLS buffer is seen by the reader on every SSLSocket, requestor sockets included (C03's ready-probe)")
     delegate(repo, rep, tier, "C03", ("ready-probe",), "response-seen", "responses a TLS peer wrote in one record stay in the SSL buffer unseen: the SCU call waits out the DIMSE timeout, aborts a healthy association and surfaces an empty failure result instead of the responses that did arrive")
 
@@ -383,3 +386,35 @@ def check_type_dispatch(repo: Repo, rep: Report) -> None:
         key = typ.replace("_", "-")
         ok = not reach or key in keys
         rep.check(ok, "failure-path", fq, f"a {typ} message and the lookup {tname}[..]", f"a {typ} message admitted by the type guard can reach `{norm(reach[0].ast)[:60] if reach else ''}` although {tname} has no entry for it ({sorted(keys)}): KeyError escapes the response generator - the caller gets neither the final response nor (Dataset(), None), the real final response stays queued and the reactor stays paused", mod=am, node=reach[0].ast if reach else fn)
+
+
+def check_decoded_use_guarded(repo: Repo, rep: Report, rule: str = "failure-path") -> None:
+    """pydicom decodes lazily: decode() of the peer's Identifier can succeed and the first *access* to a malformed
+    element (iterating the data set to log it, pretty_dataset()) raises. In the SCU calls everything done with the
+    freshly decoded data set before it is handed to the caller therefore sits in the same guarded try as the
+    decode itself - otherwise the exception escapes next(), the remaining responses are never surfaced and the
+    reactor stays paused."""
+    am = repo.mod("association")
+    n = 0
+    for fn in [f for f in ast.walk(am.tree) if isinstance(f, ast.FunctionDef)]:
+        decs = [a for a in walk_no_nested(fn) if isinstance(a, ast.Assign) and isinstance(a.targets[0], ast.Name) and isinstance(a.value, ast.Call) and dotted(a.value.func) == "decode"]
+        for a in decs:
+            name = a.targets[0].id
+            uses = []
+            for x in walk_no_nested(fn):
+                if isinstance(x, ast.For) and any(isinstance(y, ast.Name) and y.id == name for y in ast.walk(x.iter)):
+                    uses.append(x.iter)
+                elif isinstance(x, ast.Call) and dotted(x.func) not in ("isinstance", "len", "bool", "cast", "decode") and any(isinstance(y, ast.Name) and y.id == name for arg in list(x.args) + [k.value for k in x.keywords] for y in ast.walk(arg)) and not isinstance(parent(x), (ast.Return, ast.Yield)):
+                    uses.append(x)
+                elif isinstance(x, ast.Attribute) and isinstance(x.value, ast.Name) and x.value.id == name:
+                    uses.append(x)
+            for u in uses:
+                n += 1
+                t = enclosing(u, (ast.Try,))
+                ok = False
+                while t is not None and not ok:
+                    if any(u is y for s_ in t.body for y in ast.walk(s_)) and any(h.type is None or norm(h.type) in ("Exception", "BaseException") for h in t.handlers):
+                        ok = True
+                    t = enclosing(t, (ast.Try,))
+                rep.check(ok, rule, f"association.{qualname(fn)}", enclosing(u, (ast.stmt,)) or u, f"`{norm(u)[:50]}` works on the data set just decoded from the peer's bytes outside a catch-all try: an element that only fails when it is accessed (pydicom parses lazily) raises out of the response generator - the caller's next() gets an exception instead of (status, None), later responses are lost and the reactor stays paused", mod=am, node=u)
+    rep.counters["uses of freshly decoded peer data sets in association.py"] = n
